@@ -1,5 +1,6 @@
 /-
-  Helper lemmas for the packed-array model (Model/Packed.lean): bytes, heap updates,
+  Helper lemmas for the packed-array model (Model/Packed.lean; /repo after the repairs of
+  2026-09-26): bytes, heap updates,
   the first/middle/last decomposition, bit-level characterisation of every mutating method.
   Property theorems are in Props/C05.lean.
 -/
@@ -1773,6 +1774,454 @@ theorem setSlicePBA_spec (h : Heap) (p : PBA) (lo hi : Option Int) (t q : PBA)
       rw [PBA.fml_append h d t hwt] at hf
       refine ⟨_, ?_, R⟩
       simp [setSlicePBA, ht, hwt.pyLen, hn, hf, hg, hs, he, hsm, ec, e, bind, Except.bind, pure, Except.pure]
+
+
+theorem mem_insSorted (x z : Int) (l : List Int) : z ∈ insSorted x l ↔ z = x ∨ z ∈ l := by
+  induction l with
+  | nil => simp [insSorted]
+  | cons y ys ih =>
+    unfold insSorted
+    split
+    · simp
+    · split
+      · rename_i hxy; subst hxy; simp
+      · simp only [List.mem_cons, ih]
+        constructor
+        · rintro (h | h | h) <;> simp [h]
+        · rintro (h | h | h) <;> simp [h]
+
+theorem mem_sortedUnique (z : Int) (l : List Int) : z ∈ sortedUnique l ↔ z ∈ l := by
+  unfold sortedUnique
+  induction l with
+  | nil => simp
+  | cons x xs ih => simp only [List.foldr_cons, mem_insSorted, ih, List.mem_cons]
+
+theorem nodup_insSorted (x : Int) (l : List Int) (h : l.Pairwise (· < ·)) : (insSorted x l).Pairwise (· < ·) := by
+  induction l with
+  | nil => simp [insSorted]
+  | cons y ys ih =>
+    unfold insSorted
+    have hy := List.pairwise_cons.mp h
+    split
+    · rename_i hxy
+      refine List.pairwise_cons.mpr ⟨fun z hz => ?_, h⟩
+      rcases List.mem_cons.mp hz with rfl | hz
+      · exact hxy
+      · have := hy.1 z hz; omega
+    · split
+      · exact h
+      · rename_i h1 h2
+        refine List.pairwise_cons.mpr ⟨fun z hz => ?_, ih hy.2⟩
+        rcases (mem_insSorted x z ys).mp hz with rfl | hz
+        · omega
+        · exact hy.1 z hz
+
+/-- the value at the last occurrence of `j`, if `j` occurs -/
+def lastValN (ivs : List (Nat × Bool)) (j : Nat) : Option Bool :=
+  (ivs.reverse.find? fun iv => iv.1 == j).map (·.2)
+
+theorem lastVal_ofNat (idx : List Nat) (vals : List Bool) (j : Nat) :
+    lastVal ((idx.map Int.ofNat).zip vals) (j : Int) = (lastValN (idx.zip vals) j).getD false := by
+  unfold lastVal lastValN
+  have e : (idx.map Int.ofNat).zip vals = (idx.zip vals).map (Prod.map Int.ofNat id) := by
+    rw [List.zip_map_left]
+  rw [e, ← List.map_reverse, List.find?_map]
+  have hp : ((fun iv : Int × Bool => iv.1 == (j : Int)) ∘ Prod.map Int.ofNat id) =
+      (fun iv : Nat × Bool => iv.1 == j) := by
+    funext x
+    simp only [Function.comp, Prod.map_fst]
+    by_cases c : x.1 = j
+    · simp [c]
+    · have h1 : ((x.1 : Int) == (j : Int)) = false := by simp; omega
+      have h2 : (x.1 == j) = false := by simp [c]
+      simp only [Int.ofNat_eq_natCast, h1, h2]
+  rw [hp]
+  cases (idx.zip vals).reverse.find? (fun iv => iv.1 == j) <;> simp
+
+/-- numpy sequential assignment: the last occurrence wins -/
+theorem foldl_set_last (ivs : List (Nat × Bool)) (l0 : List Bool) (j : Nat) :
+    (ivs.foldl (fun l iv => l.set iv.1 iv.2) l0)[j]? =
+      match lastValN ivs j with
+      | some b => (l0[j]?).map (fun _ => b)
+      | none => l0[j]? := by
+  unfold lastValN
+  generalize hr : ivs.reverse = r
+  have : ivs = r.reverse := by rw [← hr, List.reverse_reverse]
+  subst this
+  clear hr
+  induction r generalizing l0 with
+  | nil => simp
+  | cons iv r ih =>
+    simp only [List.reverse_cons, List.foldl_append, List.foldl_cons, List.foldl_nil, getElem?_set',
+      List.find?_cons] at ih ⊢
+    by_cases c : iv.1 = j
+    · simp only [c, beq_self_eq_true, if_true, Option.map_some]
+      rw [ih]
+      cases (r.find? fun iv => iv.1 == j).map (·.2) <;> cases l0[j]? <;> simp
+    · have : (iv.1 == j) = false := by simp [c]
+      simp only [this, c, if_false]
+      exact ih l0
+
+theorem lastValN_isSome (idx : List Nat) (vals : List Bool) (hlen : vals.length = idx.length) (j : Nat) :
+    (lastValN (idx.zip vals) j).isSome = decide (j ∈ idx) := by
+  unfold lastValN
+  rw [Option.isSome_map, Bool.eq_iff_iff]
+  simp only [List.find?_isSome, List.mem_reverse, beq_iff_eq, decide_eq_true_eq]
+  constructor
+  · rintro ⟨iv, hm, rfl⟩; exact (List.of_mem_zip hm).1
+  · intro hj
+    obtain ⟨k, hk, rfl⟩ := List.getElem_of_mem hj
+    exact ⟨(idx[k], vals[k]'(by omega)), by
+      apply List.mem_iff_getElem.mpr
+      exact ⟨k, by simp; omega, by simp⟩, rfl⟩
+
+theorem range_check_ok (p : PBA) (locs : List Int) (hne : locs ≠ []) (hr : InRange p.n locs)
+    (hsz : p.size = (p.n : Int)) :
+    (decide (minI locs < 0) || decide (maxI locs ≥ p.size)) = false := by
+  cases locs with
+  | nil => exact absurd rfl hne
+  | cons x xs =>
+    have hx := hr x (by simp)
+    have h1 : ¬ (minI (x :: xs) < 0) := by
+      have := foldl_min_ge (x :: xs) x 0 hx.1 (fun y hy => (hr y hy).1)
+      simp only [minI, List.headD_cons]; omega
+    have h2 : ¬ (maxI (x :: xs) ≥ p.size) := by
+      have := foldl_max_lt (x :: xs) x p.n hx.2 (fun y hy => (hr y hy).2)
+      simp only [maxI, List.headD_cons, hsz]; omega
+    simp [h1, h2]
+
+theorem hits_keep (p : PBA) (idx : List Nat) (vals : List Bool) (b : Bool) (j : Nat) :
+    hits p (((keepLast (idx.map Int.ofNat) vals).filter (fun iv => iv.2 == b)).map (·.1)) (p.A + j) =
+      (decide (j ∈ idx) && ((lastValN (idx.zip vals) j).getD false == b)) := by
+  unfold hits keepLast
+  rw [Bool.eq_iff_iff]
+  simp only [List.any_eq_true, List.mem_map, List.mem_filter, beq_iff_eq, Bool.and_eq_true, decide_eq_true_eq,
+    mem_sortedUnique]
+  constructor
+  · rintro ⟨l, ⟨iv, ⟨⟨i, ⟨i0, hi0, rfl⟩, rfl⟩, hb⟩, rfl⟩, hl⟩
+    have : i0 = j := by
+      have : (Int.ofNat i0).toNat = i0 := by simp
+      simp only [this] at hl; omega
+    subst this
+    have h3 := lastVal_ofNat idx vals i0
+    simp only [Int.ofNat_eq_natCast] at h3 hb
+    rw [h3] at hb
+    exact ⟨hi0, hb⟩
+  · rintro ⟨hj, hb⟩
+    refine ⟨(j : Int), ⟨((j : Int), lastVal ((idx.map Int.ofNat).zip vals) (j : Int)), ⟨⟨(j : Int), ⟨j, hj, rfl⟩, rfl⟩, ?_⟩, rfl⟩, by simp⟩
+    rw [lastVal_ofNat]; exact hb
+
+/-- Index assignment with a value array: every listed element gets the value of its LAST
+    occurrence. -/
+theorem setIdxArr_spec (h : Heap) (p : PBA) (hwf : WF h p) (idx : List Nat) (vals : List Bool)
+    (hlen : vals.length = idx.length) (hr : ∀ i ∈ idx, i < p.n) :
+    ∃ h', setIdxArr h p (idx.map Int.ofNat) vals = (h', none) ∧ h'.size = h.size ∧
+      ∀ j, j < p.n → hbit h' (p.A + j) =
+        if j ∈ idx then (lastValN (idx.zip vals) j).getD false else hbit h (p.A + j) := by
+  by_cases hne : idx = []
+  · subst hne
+    exact ⟨h, rfl, rfl, fun j _ => by simp⟩
+  · have hr' := inRange_ofNat p.n idx hr
+    have hsub : ∀ (q : Int × Bool → Bool),
+        InRange p.n ((((keepLast (idx.map Int.ofNat) vals)).filter q).map (·.1)) := by
+      intro q l hl
+      obtain ⟨iv, hiv, rfl⟩ := List.mem_map.mp hl
+      have hm := (List.mem_filter.mp hiv).1
+      unfold keepLast at hm
+      obtain ⟨i, hi, rfl⟩ := List.mem_map.mp hm
+      exact hr' i ((mem_sortedUnique i _).mp hi)
+    obtain ⟨h1, e1, R1⟩ := setBits_spec h p hwf _ (hsub (·.2))
+    obtain ⟨h2, e2, R2⟩ := clearBits_spec h1 p (R1.wf hwf) _ (hsub (!·.2))
+    have hsz : p.size = (p.n : Int) := by
+      obtain ⟨a1, a2, a3, a4, a5⟩ := hwf; simp only [PBA.size, PBA.n]; omega
+    have hrc := range_check_ok p (idx.map Int.ofNat) (by simpa using hne) hr' hsz
+    refine ⟨h2, ?_, R2.size.trans R1.size, fun j hj => ?_⟩
+    · simp only [setIdxArr, Bool.false_and, Bool.false_eq_true, if_false, List.isEmpty_iff, List.map_eq_nil_iff, hne,
+        List.length_map, hlen, bne_self_eq_false, hrc, e1, e2]
+    · rw [R2.bit, if_pos ⟨by omega, by omega⟩, R1.bit, if_pos ⟨by omega, by omega⟩]
+      have e1' : (fun iv : Int × Bool => iv.2 == true) = (·.2) := by funext iv; simp
+      have e2' : (fun iv : Int × Bool => iv.2 == false) = (!·.2) := by funext iv; cases iv.2 <;> rfl
+      have ht := hits_keep p idx vals true j
+      have hf := hits_keep p idx vals false j
+      rw [e1'] at ht; rw [e2'] at hf
+      rw [ht, hf]
+      by_cases c : j ∈ idx
+      · simp only [c, decide_true, Bool.true_and, if_true]
+        cases (lastValN (idx.zip vals) j).getD false <;> simp
+      · simp [c]
+
+
+theorem lowMask_bits : ∀ sm t : Fin 8, (lowMask sm.val).getLsbD t.val = decide (t.val < sm.val) := by decide
+
+theorem and_lowMask (b : Byte) (sm t : Nat) (hsm : sm < 8) (ht : t < 8) :
+    (b &&& lowMask sm).getLsbD t = (decide (t < sm) && b.getLsbD t) := by
+  rw [BitVec.getLsbD_and, lowMask_bits ⟨sm, hsm⟩ ⟨t, ht⟩, Bool.and_comm]
+
+/-- bit `k` is a padding bit of `p`: after its last element, inside its own last byte -/
+def padBit (p : PBA) (k : Nat) : Prop := p.A + p.n ≤ k ∧ k < 8 * (p.off + p.len)
+
+/-- `if stop % 8 != 0: self._data[-1] &= (1 << stop % 8) - 1` clears exactly the padding bits. -/
+theorem maskPad_spec (h : Heap) (p : PBA) (hwf : WF h p) (hs8 : p.stop % 8 ≠ 0) :
+    (wr h (p.off + p.len - 1) (rdB h (p.off + p.len - 1) &&& lowMask (p.stop % 8).toNat)).size = h.size ∧
+    ∀ k, (padBit p k →
+        hbit (wr h (p.off + p.len - 1) (rdB h (p.off + p.len - 1) &&& lowMask (p.stop % 8).toNat)) k = false) ∧
+      (¬ padBit p k →
+        hbit (wr h (p.off + p.len - 1) (rdB h (p.off + p.len - 1) &&& lowMask (p.stop % 8).toNat)) k = hbit h k) := by
+  have hs := hwf.stop_eq
+  obtain ⟨a1, a2, a3, a4, a5⟩ := hwf
+  refine ⟨wr_size _ _ _, fun k => ?_⟩
+  have hk := Nat.div_add_mod k 8
+  have ht : k % 8 < 8 := Nat.mod_lt _ (by omega)
+  rw [hbit_wr]
+  unfold padBit
+  simp only [PBA.A, PBA.n]
+  by_cases c : k / 8 = p.off + p.len - 1
+  · rw [if_pos ⟨c, by omega⟩, and_lowMask _ _ _ (by omega) ht]
+    by_cases c2 : k % 8 < (p.stop % 8).toNat
+    · refine ⟨fun hh => by omega, fun _ => by simp [c2, hbit, c]⟩
+    · refine ⟨fun _ => by simp [c2], fun hh => by omega⟩
+  · rw [if_neg (fun hh => c hh.1)]
+    exact ⟨fun hh => by omega, fun _ => rfl⟩
+
+theorem padZero_of_aligned (h : Heap) (p : PBA) (hwf : WF h p) (hs8 : p.stop % 8 = 0) : PadZero h p := by
+  obtain ⟨a1, a2, a3, a4, a5⟩ := hwf
+  intro k h1 h2
+  simp only [PBA.A, PBA.n] at h1 h2
+  omega
+
+theorem growBuffer_spec (h : Heap) (p : PBA) (hwf : WF h p) (newsize : Nat) (hlt : p.n < newsize)
+    (hpad : PadZero h p) (hok : p.own = true ∨ (newsize + p.start + 7) / 8 = p.len) :
+    ∃ h' p', growBuffer h p ((newsize + p.start + 7) / 8) ((newsize : Int) + p.start) = ((h', p'), none) ∧
+      WF h' p' ∧ p'.n = newsize ∧ p'.own = p.own ∧
+      toBools h' p' = toBools h p ++ List.replicate (newsize - p.n) false ∧
+      (∀ k, k < 8 * h.size → hbit h' k = hbit h k) ∧ h.size ≤ h'.size := by
+  have hs := hwf.stop_eq
+  have hwf' := hwf
+  obtain ⟨a1, a2, a3, a4, a5⟩ := hwf
+  by_cases hsame : (newsize + p.start + 7) / 8 = p.len
+  · -- the same number of bytes: only `_stop_index` moves
+    have hwn : WF h { p with stop := (newsize : Int) + p.start } := ⟨a1, by simp; omega, by simp; omega, by simp; omega, a5⟩
+    refine ⟨h, { p with stop := (newsize : Int) + p.start }, ?_, hwn, by simp [PBA.n], rfl, ?_,
+      fun _ _ => rfl, Nat.le_refl _⟩
+    · simp [growBuffer, hsame]
+    · apply List.ext_getElem?
+      intro i
+      rw [toBools_getElem? _ _ hwn, List.getElem?_append, toBools_length _ _ hwf', toBools_getElem? _ _ hwf']
+      have hn' : ({ p with stop := (newsize : Int) + p.start } : PBA).n = newsize := by simp [PBA.n]
+      have hA' : ({ p with stop := (newsize : Int) + p.start } : PBA).A = p.A := rfl
+      rw [hn', hA']
+      by_cases c1 : i < p.n
+      · simp [c1, show i < newsize by omega]
+      · by_cases c2 : i < newsize
+        · simp only [c1, c2, if_true, if_false, List.getElem?_replicate]
+          rw [if_pos (by omega), hpad _ (by omega) (by simp only [PBA.A]; omega)]
+        · simp [c1, c2, List.getElem?_replicate]; omega
+  · -- reallocation of an owning buffer: it moves to the end of the heap
+    have hown : p.own = true := hok.elim id (fun hh => absurd hh hsame)
+    have hgt : p.len ≤ (newsize + p.start + 7) / 8 := by omega
+    let nd := (newsize + p.start + 7) / 8
+    let bytes := ((p.data h).take nd) ++ List.replicate (nd - p.len) (0 : Byte)
+    have hdl := data_length h p a5
+    have hbl : bytes.length = nd := by simp [bytes, hdl]; omega
+    let p' : PBA := ⟨h.size, nd, p.start, (newsize : Int) + p.start, p.own⟩
+    have hwn : WF (h ++ bytes.toArray) p' :=
+      ⟨a1, by simp [p']; omega, by simp [p', nd]; omega, by simp [p', nd]; omega, by simp [p', hbl]⟩
+    refine ⟨h ++ bytes.toArray, p', ?_, hwn, by simp [p', PBA.n], rfl, ?_,
+      fun k hk => hbit_append_old h bytes k hk, by simp⟩
+    · simp [growBuffer, hsame, hown, p', bytes, nd]
+    · apply List.ext_getElem?
+      intro i
+      rw [toBools_getElem? _ _ hwn, List.getElem?_append, toBools_length _ _ hwf', toBools_getElem? _ _ hwf']
+      have hn' : p'.n = newsize := by simp [p', PBA.n]
+      have hA' : p'.A = 8 * h.size + p.start := rfl
+      rw [hn', hA']
+      have hbyte : ∀ j t, t < 8 → (bytes.getD j 0).getLsbD t = if j < p.len then hbit h (8 * (p.off + j) + t) else false := by
+        intro j t ht
+        simp only [bytes, List.getD_eq_getElem?_getD, List.getElem?_append, List.length_take, hdl]
+        by_cases cj : j < p.len
+        · have : j < min nd p.len := by omega
+          simp only [this, if_true, cj, List.getElem?_take, show j < nd by omega, data_getElem? h p a5,
+            Option.getD_some, hbit_byte _ _ _ ht]
+        · have : ¬ j < min nd p.len := by omega
+          simp only [this, if_false, cj, List.getElem?_replicate]
+          split <;> simp
+      have e : 8 * h.size + p.start + i = 8 * (h.size + (p.start + i) / 8) + (p.start + i) % 8 := by omega
+      rw [e, hbit_append_new _ _ _ _ (Nat.mod_lt _ (by omega)), hbyte _ _ (Nat.mod_lt _ (by omega))]
+      by_cases c1 : i < p.n
+      · have : (p.start + i) / 8 < p.len := by omega
+        simp only [c1, show i < newsize by omega, if_true, this]
+        congr 2; simp only [PBA.A]; omega
+      · by_cases c2 : i < newsize
+        · have c3 : i - p.n < newsize - p.n := by omega
+          simp only [c1, c2, c3, if_true, if_false, List.getElem?_replicate]
+          by_cases c4 : (p.start + i) / 8 < p.len
+          · rw [if_pos c4, hpad _ (by simp only [PBA.A]; omega) (by omega)]
+          · rw [if_neg c4]
+        · have c3 : ¬ i - p.n < newsize - p.n := by omega
+          simp [c1, c2, c3]
+
+theorem resize_nd (newsize start : Nat) :
+    (if ((newsize : Int) + start) % 8 != 0 then ((newsize : Int) + start) / 8 + 1
+      else ((newsize : Int) + start) / 8).toNat = (newsize + start + 7) / 8 := by
+  split <;> rename_i hc <;> simp at hc <;> omega
+
+theorem resize_nd' (newsize start : Nat) :
+    (if ¬ ((newsize : Int) + start) % 8 = 0 then ((newsize : Int) + start) / 8 + 1
+      else ((newsize : Int) + start) / 8).toNat = (newsize + start + 7) / 8 := by
+  split <;> omega
+
+theorem resize_nd'' (newsize start : Nat) :
+    (if ((newsize : Int) + start) % 8 = 0 then ((newsize : Int) + start) / 8
+      else ((newsize : Int) + start) / 8 + 1).toNat = (newsize + start + 7) / 8 := by
+  split <;> omega
+
+theorem toBools_congr_bits (h h1 : Heap) (p : PBA) (hwf : WF h p) (hsz : h1.size = h.size)
+    (hb : ∀ k, p.A ≤ k → k < p.A + p.n → hbit h1 k = hbit h k) : WF h1 p ∧ toBools h1 p = toBools h p := by
+  have hw1 : WF h1 p := by
+    obtain ⟨a1, a2, a3, a4, a5⟩ := hwf
+    exact ⟨a1, a2, a3, a4, by omega⟩
+  refine ⟨hw1, ?_⟩
+  rw [toBools_eq _ _ hw1, toBools_eq _ _ hwf]
+  apply List.map_congr_left
+  intro i hi
+  have := List.mem_range.mp hi
+  exact hb _ (by omega) (by omega)
+
+/-- `resize` of an owning array (or without a change of the byte count): the elements are kept,
+    the new ones are False whatever the padding bits held; only padding bits of `p` change. -/
+theorem resize_spec (h : Heap) (p : PBA) (hwf : WF h p) (newsize : Nat) (hge : p.n ≤ newsize)
+    (hok : p.own = true ∨ (newsize + p.start + 7) / 8 = p.len ∨ newsize = p.n) :
+    ∃ h' p', resize h p newsize = ((h', p'), none) ∧ WF h' p' ∧ p'.n = newsize ∧ p'.own = p.own ∧
+      toBools h' p' = toBools h p ++ List.replicate (newsize - p.n) false ∧
+      (∀ k, k < 8 * h.size → ¬ padBit p k → hbit h' k = hbit h k) ∧ h.size ≤ h'.size := by
+  have hs := hwf.stop_eq
+  have hwf' := hwf
+  obtain ⟨a1, a2, a3, a4, a5⟩ := hwf
+  have hsize : p.size = (p.n : Int) := by simp only [PBA.size, PBA.n]; omega
+  by_cases heq : newsize = p.n
+  · subst heq
+    refine ⟨h, p, ?_, hwf', rfl, rfl, by simp, fun _ _ _ => rfl, Nat.le_refl _⟩
+    unfold resize
+    rw [if_neg (by rw [hsize]; omega), if_pos (by rw [hsize]; simp)]
+  · have hlt : p.n < newsize := by omega
+    have hok' : p.own = true ∨ (newsize + p.start + 7) / 8 = p.len := by
+      rcases hok with hh | hh | hh
+      · exact Or.inl hh
+      · exact Or.inr hh
+      · exact absurd hh heq
+    by_cases hs8 : p.stop % 8 = 0
+    · obtain ⟨h', p', e, hw', hn', ho', hb', hfr, hsz⟩ :=
+        growBuffer_spec h p hwf' newsize hlt (padZero_of_aligned h p hwf' hs8) hok'
+      refine ⟨h', p', ?_, hw', hn', ho', hb', fun k hk _ => hfr k hk, hsz⟩
+      unfold resize
+      rw [if_neg (by rw [hsize]; omega), if_neg (by rw [hsize]; simp; omega)]
+      simp only [resize_nd, hs8, bne_self_eq_false, Bool.false_eq_true, if_false]
+      exact e
+    · obtain ⟨hsz1, hm⟩ := maskPad_spec h p hwf' hs8
+      generalize hh1 : wr h (p.off + p.len - 1) (rdB h (p.off + p.len - 1) &&& lowMask (p.stop % 8).toNat) = h1
+        at hsz1 hm
+      obtain ⟨hw1, hb1⟩ := toBools_congr_bits h h1 p hwf' hsz1
+        (fun k k1 k2 => (hm k).2 (by unfold padBit; omega))
+      have hpad1 : PadZero h1 p := fun k k1 k2 => (hm k).1 ⟨k1, k2⟩
+      obtain ⟨h', p', e, hw', hn', ho', hb', hfr, hsz⟩ := growBuffer_spec h1 p hw1 newsize hlt hpad1 hok'
+      refine ⟨h', p', ?_, hw', hn', ho', by rw [hb', hb1], fun k hk hnp => ?_, by omega⟩
+      · unfold resize
+        rw [if_neg (by rw [hsize]; omega), if_neg (by rw [hsize]; simp; omega)]
+        have hl0 : (p.len == 0) = false := by simp; omega
+        simp only [resize_nd', bne_iff_ne, ne_eq, hs8, not_false_eq_true, if_true, hl0, Bool.false_eq_true,
+          if_false, hh1]
+        exact e
+      · rw [hfr k (by omega), (hm k).2 hnp]
+
+/-- `resize` of a slice view to another byte count is refused (as numpy refuses to resize a
+    view); `size` is unchanged, but the padding bits of the view's last byte — bits of the parent —
+    have been cleared. -/
+theorem resize_view_spec (h : Heap) (p : PBA) (hwf : WF h p) (newsize : Nat) (hlt : p.n < newsize)
+    (hown : p.own = false) (hnd : (newsize + p.start + 7) / 8 ≠ p.len) :
+    ∃ h1, resize h p newsize = ((h1, p), some .value) ∧ h1.size = h.size ∧
+      ∀ k, (padBit p k → hbit h1 k = false) ∧ (¬ padBit p k → hbit h1 k = hbit h k) := by
+  have hs := hwf.stop_eq
+  have hwf' := hwf
+  obtain ⟨a1, a2, a3, a4, a5⟩ := hwf
+  have hsize : p.size = (p.n : Int) := by simp only [PBA.size, PBA.n]; omega
+  have hnd' : ((newsize + p.start + 7) / 8 == p.len) = false := by simp [hnd]
+  by_cases hs8 : p.stop % 8 = 0
+  · refine ⟨h, ?_, rfl, fun k => ⟨fun hp => ?_, fun _ => rfl⟩⟩
+    · unfold resize
+      rw [if_neg (by rw [hsize]; omega), if_neg (by rw [hsize]; simp; omega)]
+      simp [resize_nd'', hs8, growBuffer, hnd, hown]
+    · exact padZero_of_aligned h p hwf' hs8 k hp.1 hp.2 ▸ (by
+        unfold padBit at hp; simp only [PBA.A, PBA.n] at hp; omega)
+  · obtain ⟨hsz1, hm⟩ := maskPad_spec h p hwf' hs8
+    refine ⟨_, ?_, hsz1, hm⟩
+    unfold resize
+    rw [if_neg (by rw [hsize]; omega), if_neg (by rw [hsize]; simp; omega)]
+    have hl0 : (p.len == 0) = false := by simp; omega
+    simp [resize_nd'', hs8, hl0, growBuffer, hnd, hown]
+
+
+theorem sumShaped_none (h : Heap) (p : PBA) (hwf : WF h p) (h0 : p.start = 0) (h8 : p.stop % 8 = 0)
+    (init : List Nat) (c : Nat) (hprod : prodL (init ++ [8 * c]) = p.n) :
+    sumShaped h p (init ++ [8 * c]) none = .ok ([], [(toBools h p).count true]) := by
+  obtain ⟨hn, ht, hl⟩ := aligned_counts h p hwf h0 h8
+  have hs := hwf.stop_eq
+  have hsize : p.size = (p.n : Int) := by simp only [PBA.size]; omega
+  have hnew : (init ++ [8 * c]).set ((init ++ [8 * c]).length - 1) (8 * c / 8) = init ++ [c] := by
+    simp
+  have hpl : prodL (init ++ [c]) = p.len := by
+    rw [prodL_append_single] at hprod ⊢
+    have : prodL init * (8 * c) = 8 * (prodL init * c) := by rw [Nat.mul_left_comm]
+    omega
+  have hsum : ((p.data h).map fun b => (bitCount b).toNat).sum = (toBools h p).count true := by
+    rw [data_eq_map h p hwf.in_heap, List.map_map]
+    have := cnt_bytes h p.off p.len
+    show ((List.range p.len).map fun i => (bitCount (rdB h (p.off + i))).toNat).sum = _
+    rw [this, toBools_count h p hwf, hn]
+    simp only [PBA.A, h0]; congr 1; omega
+  have h8c : 8 * c / 8 = c := by omega
+  have h8m : 8 * c % 8 = 0 := by omega
+  simp [sumShaped, h0, h8, pure, Except.pure, hprod, hsize, List.getLast?_append,
+    hpl, hl, hsum, h8c, h8m]
+
+theorem sumShaped_last (h : Heap) (p : PBA) (hwf : WF h p) (h0 : p.start = 0) (h8 : p.stop % 8 = 0)
+    (init : List Nat) (c : Nat) (hprod : prodL (init ++ [8 * c]) = p.n) :
+    sumShaped h p (init ++ [8 * c]) (some (init.length : Int)) =
+      .ok (init, sumAxis (bitsNat (toBools h p)) (init ++ [8 * c]) init.length) := by
+  obtain ⟨hn, ht, hl⟩ := aligned_counts h p hwf h0 h8
+  have hs := hwf.stop_eq
+  have hsize : p.size = (p.n : Int) := by simp only [PBA.size]; omega
+  have hpl : prodL (init ++ [c]) = p.len := by
+    rw [prodL_append_single] at hprod ⊢
+    have : prodL init * (8 * c) = 8 * (prodL init * c) := by rw [Nat.mul_left_comm]
+    omega
+  have h8c : 8 * c / 8 = c := by omega
+  have h8m : 8 * c % 8 = 0 := by omega
+  have hax := sumAxis_last_packed (bitsNat (toBools h p)) ((p.data h).map fun b => (bitCount b).toNat) init c ht
+  simp [sumShaped, h0, h8, bind, Except.bind, pure, Except.pure, hprod, hsize, List.getLast?_append,
+    hpl, hl, h8c, h8m, hax]
+  have e2 : (init ++ [c]).eraseIdx init.length = init := by
+    rw [List.eraseIdx_append_of_length_le (Nat.le_refl _)]; simp
+  simp [e2]
+  omega
+
+
+
+/-- every axis other than the last one is refused (an axis ≥ ndim with `ValueError`) -/
+theorem sumShaped_other_axis (h : Heap) (p : PBA) (hwf : WF h p) (h0 : p.start = 0) (h8 : p.stop % 8 = 0)
+    (init : List Nat) (c : Nat) (hprod : prodL (init ++ [8 * c]) = p.n) (a : Int)
+    (ha : a ≠ (init.length : Int)) :
+    sumShaped h p (init ++ [8 * c]) (some a) =
+      .error (if a ≥ (init.length : Int) + 1 then .value else .notImpl) := by
+  have hs := hwf.stop_eq
+  have hsize : p.size = (p.n : Int) := by simp only [PBA.size]; omega
+  have h8m : 8 * c % 8 = 0 := by omega
+  by_cases c1 : a ≥ (init.length : Int) + 1
+  · simp [sumShaped, h0, h8, bind, Except.bind, c1, throw, throwThe, MonadExceptOf.throw]
+  · have c2 : ¬ ((init.length : Int) + 1 ≤ a) := by omega
+    have c3 : ¬ (a = (init.length : Int) + 1 - 1) := by omega
+    simp [sumShaped, h0, h8, bind, Except.bind, pure, Except.pure, c1, hprod, hsize, List.getLast?_append, h8m,
+      throw, throwThe, MonadExceptOf.throw]
+    intro hh; exact absurd hh ha
 
 end Packed
 end HS
